@@ -133,3 +133,37 @@ def agrees(e, kind, parent):
         elif k == kind and (ownerset is None or parent in ownerset):
             return True
     return False
+
+
+def adjacent_comment(root, m, side):
+    """The block comment a manual claim_leading_comment / claim_trailing_comment of model m refers to: the comment on the line
+    directly above the model's first line / directly below its last line (exactly one line break, same indentation class),
+    or None. Derived from the visible tokens and the model's extent only."""
+    d = vars(m)
+    lc, tc = d.get('_leading_comment'), d.get('_trailing_comment')
+    toks = [t for t in root.token_store if t.raw_text]
+    pos = {id(t): i for i, t in enumerate(toks)}
+    try:
+        mt = [t for t in m.tokens if t.raw_text and t is not lc and t is not tc]
+    except Exception:
+        return 'unknown'
+    while mt and isinstance(mt[0], walker.SPACING):
+        mt.pop(0)
+    while mt and isinstance(mt[-1], walker.SPACING):
+        mt.pop()
+    if not mt:
+        return 'unknown'
+    indented = '_indent' in d
+    if side == 'trailing':
+        i = pos[id(mt[-1])]
+        while i + 1 < len(toks) and isinstance(toks[i + 1], models.Whitespace):
+            i += 1          # trailing blanks before the line end
+        if i + 2 < len(toks) + 0 and isinstance(toks[i + 1], models.Newline) and toks[i + 1].raw_text.count('\n') == 1 \
+                and i + 2 < len(toks) and isinstance(toks[i + 2], models.BlockComment) and bool(toks[i + 2].indent) == indented:
+            return toks[i + 2]
+        return None
+    i = pos[id(mt[0])]
+    if i - 2 >= 0 and isinstance(toks[i - 1], models.Newline) and toks[i - 1].raw_text.count('\n') == 1 \
+            and isinstance(toks[i - 2], models.BlockComment) and bool(toks[i - 2].indent) == indented:
+        return toks[i - 2]
+    return None
